@@ -450,6 +450,26 @@ class Extractor:
                 return False
         return True
 
+    @staticmethod
+    def converted_locally(fn, raise_node, exc_name):
+        """The raise stands (at any depth, handlers of inner `try`s included) in the BODY of a `try` of the same
+        function whose first handler naming the raised class (or Exception) ends in raising a new exception:
+        the raised object never leaves the function, what the author sees is that handler's own site."""
+        cur = raise_node
+        while cur in fn.parent:
+            par = fn.parent[cur]
+            if isinstance(par, (ast.FunctionDef, ast.AsyncFunctionDef, ast.Lambda, ast.ClassDef)):
+                break
+            if isinstance(par, ast.Try) and any(cur is b for b in par.body):
+                for h in par.handlers:
+                    names = [n.id for n in ast.walk(h.type) if isinstance(n, ast.Name)] if h.type is not None \
+                        else ["BaseException"]
+                    if exc_name in names or "Exception" in names or "BaseException" in names:
+                        last = h.body[-1]
+                        return isinstance(last, ast.Raise) and last.exc is not None
+            cur = par
+        return False
+
     def exemption(self, fn, raise_node, key):
         """Stated exemptions for raises that do not go through format_error: (class, reason) or None."""
         nm = fn.qual.split(":")[1]
@@ -464,6 +484,9 @@ class Extractor:
             return "SFallback", "fallback of the guarded format_error site above it (counted there, per context)"
         if exc_name == "ValueError" and self.converted_by_callers(fn.qual):
             return "SConverted", "every caller catches it and re-raises through its own site"
+        if exc_name and self.converted_locally(fn, raise_node, exc_name):
+            return "SConverted", ("caught by an enclosing try of the same function, whose handler re-raises through "
+                                  "its own site")
         if nm == "check_duplicate_passages":
             return "SOwnFormat", ("builds its own 'Line N in file' entries from the line map; checked by the "
                                   "behavioural oracle (passage-duplicate)")
